@@ -42,6 +42,9 @@ type solveResult struct {
 func (o *Obligation) query(models bool) string {
 	e := o.enc
 	var b strings.Builder
+	if e == nil {
+		return ""
+	}
 	if models {
 		b.WriteString("(set-option :produce-models true)\n")
 	}
